@@ -33,13 +33,18 @@ static int verif_replay_status(void) { return verif_replay_failed ? 1 : 0; }
 #define POST(c, name) do { if (!(c)) { printf("REPLAY: oracle FAILED on the real code: %s : %s\n", name, #c); verif_replay_failed = 1; } \
                            } while (0)
 #define REACH(tag) do { } while (0)
-#define NONDET_IN(type) ((type) REPLAY_IN_INIT)
+#define NONDET_IN(type) (*(type *)verif_replay_in)
+static void *verif_replay_in;   /* set by the generated replay main() to the counterexample inputs */
+#define DECL_IN(tag)
+#define GET_IN(tag) (*(struct tag *)verif_replay_in)
 #define GHOST(stmt) stmt
 #else
 #define PRE(c) __CPROVER_assume(c)
 #define POST(c, name) __CPROVER_assert(c, name)
 #define REACH(tag) __CPROVER_assert(0, "REACH " tag)
 #define NONDET_IN(type) nondet_in()
+#define DECL_IN(tag) struct tag nondet_##tag(void);
+#define GET_IN(tag) nondet_##tag()
 #define GHOST(stmt) stmt
 #endif
 
